@@ -268,6 +268,8 @@ def _build_and_run(ctx, spec, args, horizons, hook):
     world = L.World(ctx, spec, args)
     system = L.build(world)
     hook(world)
+    for f in world.deferred:
+        f()
     world.monitors = []
     world.max_events = 10 ** 4
     L.install_step_wrapper(world)
